@@ -73,6 +73,7 @@ def run(tier, seed, replay=None):
         rv = fsoracle.RuntimeView()
         prev = None
         pol = 'ta' if sc['policy'] == 'topology-aware' else 'bln'
+        tainted = False      # a rejected update whose revert failed too left the state half-rewritten (K9) until the next complete application
         for rec, (cfg, _) in zip(recs, cfgs):
             if rec['seq'] < 0:
                 prev = rec
@@ -102,9 +103,14 @@ def run(tier, seed, replay=None):
                 elif tag == 'same':
                     for cid, v in a['cache'].items():
                         if cid in b['cache'] and b['cache'][cid] != v:
-                            viol(sc, F('C13', 'reconfig-idempotent', '%s:identical-config-changed-resources' % pol,
+                            # after a failed revert the configuration in force is re-applied in full on purpose (63619eb)
+                            viol(sc, F('C13', 'reconfig-idempotent', '%s:identical-config-%s' % (pol, 'after-failed-revert' if tainted else 'changed-resources'),
                                        're-applying the identical configuration changed container %s: %s -> %s' % (cid, v, b['cache'][cid]), rec['seq']))
                             break
+                if rec.get('revert_failed'):
+                    tainted = True
+                elif ok:
+                    tainted = False
                 if ok:
                     # accepted: invariants, no stopped container re-admitted, every change pushed
                     fs = fsoracle.ta_state_findings(rec, cfg, sc['_machine']) if rec.get('ta') else fsoracle.bln_state_findings(rec, cfg, sc['_machine'])
